@@ -89,6 +89,10 @@ class ReferenceImpl(Derivable, Impl):
 
     def _inherit_interface(self, updater, bases):
 
+        # The defining reference may have changed (base removed/added,
+        # reference deleted): the mode is the one of the current definition
+        self.refmode = bases[0].refmode
+
         if bases[0].has_interface():
 
             if self.refmode == "absolute":
